@@ -1,5 +1,5 @@
 //! C16 streams: xfer stream <seed> <ncases> [mode=threads|procs] [transport=unix|tcp|any] [maxlen=N]
-//!              xfer timeouts <seed> <reps> | xfer tries <seed> <reps> | xfer edge <seed> 1 | xfer intr <seed> <reps> [inject]
+//!              xfer timeouts <seed> <reps> | xfer tries <seed> <reps> | xfer edge <seed> 1 | xfer intr <seed> <reps> [inject] | xfer trunc <seed> <reps>
 #[cfg(not(miri))]
 fn main() {
     use h_sock::{mon, stream, timed};
@@ -68,6 +68,7 @@ fn main() {
         "timeouts" => timed::run_timeouts(a.seed, a.budget, &dir),
         "tries" => timed::run_tries(a.seed, a.budget, &dir),
         "edge" => timed::run_edge(&dir),
+        "trunc" => h_sock::trunc::run_trunc(a.seed, a.budget, &dir),
         m => {
             eprintln!("unknown mode {m}");
             std::process::exit(2);
